@@ -262,6 +262,8 @@ type engSpec struct {
 	// ExtraPool: the engine runs a second, minimal pool (one instance, one shot, own components and log) listed before
 	// the pool under observation: whatever the engine shares between its pools (counters, contexts) shows
 	ExtraPool bool
+	// WarmUp: the pool's warm-up takes this long
+	WarmUp time.Duration
 	// PanicOn: the PanicShot-th shot of instance PanicInst panics (the engine recovers it into a failed run)
 	PanicOn              bool
 	PanicInst, PanicShot int
@@ -308,6 +310,7 @@ func runEngine(r *R, sp engSpec, horizon time.Duration) *engResult {
 		script.Report = true
 		// the guns are closable: a gun the engine has closed must not be asked to shoot any more
 		script.Closable = true
+		script.WarmUpDur = sp.WarmUp
 		if sp.PanicOn {
 			script.PanicInst, script.PanicShot = sp.PanicInst, sp.PanicShot
 		}
